@@ -199,6 +199,10 @@ func (f *FibStrategyTree) ClearNextHopsEnc(name enc.Name) {
 	f.fibStrategyRWMutex.Lock()
 	defer f.fibStrategyRWMutex.Unlock()
 
+	f.clearNextHopsLocked(name)
+}
+
+func (f *FibStrategyTree) clearNextHopsLocked(name enc.Name) {
 	if name == nil {
 		return // In some weird case, when RibEntry.updateNexthops() is called, the name becomes nil.
 	}
@@ -208,6 +212,28 @@ func (f *FibStrategyTree) ClearNextHopsEnc(name enc.Name) {
 		delete(f.fibPrefixes, name.Hash())
 		node.pruneIfEmpty()
 	}
+}
+
+// ReplaceNextHopsEnc replaces all nexthops of the specified prefix in one step.
+func (f *FibStrategyTree) ReplaceNextHopsEnc(name enc.Name, nexthops map[uint64]uint64) {
+	f.fibStrategyRWMutex.Lock()
+	defer f.fibStrategyRWMutex.Unlock()
+
+	if len(nexthops) == 0 || name == nil {
+		f.clearNextHopsLocked(name)
+		return
+	}
+
+	name = name.Clone()
+	entry := f.fillTreeToPrefixEnc(name)
+	if entry.name == nil {
+		entry.name = name
+	}
+	entry.nexthops = make([]*FibNextHopEntry, 0, len(nexthops))
+	for nexthop, cost := range nexthops {
+		entry.nexthops = append(entry.nexthops, &FibNextHopEntry{Nexthop: nexthop, Cost: cost})
+	}
+	f.fibPrefixes[name.Hash()] = entry
 }
 
 // RemoveNextHop removes the specified nexthop entry from the specified prefix.
